@@ -23,16 +23,16 @@ CHECKS = {
          'decides: recorded always and first, shown iff (no selection or this connection) and filter, one display route, once per arrival, filter/selection commands touch no record and display nothing, matches() pure. NOT decided: what matches() returns (C05).'),
  'C10': ('scenario evaluation (breakpoint guard, invoke_command, prompt loop), call-graph closures over the command registry, writer enumeration of flags',
          'decides: stop() returns the pause flag computed for this message, pause iff breakpoint matches (and selection), only resume resumes / quit quits, loop prompts while paused and not quitting. NOT decided: matches() result, GDB internals.'),
- 'C11': ('effect closure of list_command; path enumeration of the scan with order parity, per-iteration bookkeeping, linear count identity, cap scenarios',
+ 'C11': ('effect closure of list_command; path enumeration of the scan with the returned list and the three counts folded per path; folding of list_command on argument shapes; cap scenarios',
          'decides: listing is read-only, source by selection, oldest first with cap keeping the last N, counts sum to the record size, matcher choice. NOT decided: matches() result.'),
  'C12': ('path enumeration of parse_and_join (with modelled parse failure), join, MatcherList.matches; typestate of stored matchers',
-         'decides: failed parse keeps the old matcher and reports, each command updates its own matcher, join replaces on */! and extends field-wise otherwise, list = some alternative and no exclusion. NOT decided: meaning of individual alternatives (C05).'),
+         'decides: failed parse keeps the old matcher and reports, each command updates its own matcher, join replaces on */! and otherwise leaves alternatives = keep-not-star(new ++ old) or [*] and exclusions = new ++ old (list algebra over the stores of each path), list = some alternative and no exclusion, simplify only maps / drops never-constants / collapses to *. NOT decided: meaning of individual alternatives (C05).'),
  'C07': ('XML corpus cross-checks, scenario tables (version contest, enum decoding), identity chains (positional lookup, field mapping)',
          'decides: the 17 hand-applied enum tags resolve in every winning description, reader vocabulary occurs in the corpus, highest version wins, argument i is the i-th declared, overrides call super, enum/bitfield decode table and fallbacks, unknown interface stays undecorated. NOT decided: per-entry facts as an enumeration; parse_enum_value arithmetic. Trusted: shipped XML read as data.'),
  'C08': ('path enumeration of parse_all with modelled decode failures; exception flow into the pass-through handler over the RTA call graph',
          'decides: one readline and one outcome per iteration, pass-through text is the line and only for non-messages (every other raise site reaching the handler is reported), loop exits only on EOF/interrupt, --supress read only by the pass-through sink, synchronous output chain. NOT decided: OS buffering; behaviour after the internal-error latch. One recorded finding (D4).'),
- 'C09': ('structural analysis of extract_message against frozen libwayland tables; sibling comparison with log mode\'s kind table',
-         'decides: the argument cursor has only its init and += 1 as definitions, code table = branch chain = {iufsonah}, code->constructor table equals log mode, struct-field roles, direction per breakpoint. NOT decided: what GDB evaluates; array element width. Nothing of GDB mode is executed.'),
+ 'C09': ('path enumeration of extract_message / received_message / sent_message against frozen libwayland tables; sibling comparison with log mode\'s kind table',
+         'decides: on every path through up to 2 (thorough: 3) signature characters the k-th decoded argument is read from slot k of the argument and type arrays through the union member of the k-th type code (digits and ? consume no slot); code table = {iufsonah}; per code the appended argument term (constructor, value source, null guards, fixed-point formula, array element type) equals what log mode decodes; call-event role table of received/sent_message (closure frame, sender id, interface, direction, new-id flag per calling function); breakpoint registry. NOT decided: what GDB evaluates; the true element type of arrays. Nothing of GDB mode is executed.'),
  'C13': ('call structure of main() over all Mode members; provenance of argv/env/stderr/exit status; read discipline of the parser',
          'decides: the three log modes feed one ConnectionManager/Controller/Output through into_sink once, parser reads by readline() only, child started with verbatim argv, copied env + WAYLAND_DEBUG=1, stdout untouched, exit status passed through. NOT decided: chunking/timing as observable equality (delegated to TextIOWrapper); join timeout.'),
  'C14': ('finite-domain evaluation of character classes; shared constants of encoder/decoder; identity chains',
